@@ -70,21 +70,30 @@ func ruleC16R1(w *World, r *Report) {
 					nilRet = false
 				}
 			}
+			// every failure region the return lies in: the error of each must have been recognised (classified on
+			// the recognising side) for a nil return to be a recovery; one unrecognised failure makes it a swallowed error
+			inRegion, swallowed := false, ""
 			for _, rg := range regions {
 				if !edgeDominates(rg.test, rg.head, ret.Block()) {
 					continue
 				}
+				inRegion = true
+				if nilRet && !errorClassifiedBefore(rg.x, rg.test, rg.head, ret) {
+					swallowed = w.blockPos(rg.test)
+				}
+			}
+			if inRegion {
 				examined++
 				key := fmt.Sprintf("%s:ret-in-err-region", funcName(f))
-				if nilRet && errorClassifiedBefore(rg.x, rg.test, rg.head, ret) {
+				switch {
+				case nilRet && swallowed == "":
 					r.OK("C16.R1", key, w.instrPos(ret), "the error is classified (errors.As / errors.Is / type test) on every way to this return: a recognised condition is recovered from, not swallowed")
-				} else if nilRet {
+				case nilRet:
 					r.Violate("C16.R1", key, w.instrPos(ret),
-						fmt.Sprintf("returns nil although it is only reached when the error tested at %s is non-nil: the failure is reported as success", w.blockPos(rg.test)))
-				} else {
+						fmt.Sprintf("returns nil although it is only reached when the error tested at %s is non-nil: the failure is reported as success", swallowed))
+				default:
 					r.OK("C16.R1", key, w.instrPos(ret), "failure region returns a non-nil/propagated error")
 				}
-				break
 			}
 		}
 		_ = examined
@@ -789,8 +798,10 @@ func ruleC16R4(w *World, r *Report) {
 			}
 			r.Check(usedInPhi, "C16.R4", "run:subcommand-result", w.instrPos(c), "result flows to the exit-code mapping", "the error of a subcommand is dropped in main.run")
 		}
-		if n < 9 {
-			r.Undecided("C16.R4", "run:subcommands", w.pos(run.Pos()), fmt.Sprintf("expected 9 runSubcommand dispatches in main.run, found %d", n))
+		// one dispatch per command (a switch) or one dispatch through a table of commands: what matters is that no
+		// dispatch drops its result
+		if n < 1 {
+			r.Undecided("C16.R4", "run:subcommands", w.pos(run.Pos()), "no runSubcommand dispatch found in main.run")
 		}
 	}
 	_ = strings.Join
@@ -819,7 +830,9 @@ func errorClassifiedBefore(x ssa.Value, test, head *ssa.BasicBlock, ret *ssa.Ret
 				}
 				for _, a := range c.Common().Args {
 					if a == x || flowsTo(x, a) {
-						return true
+						if onRecognisedEdge(c, ret) {
+							return true
+						}
 					}
 				}
 			case *ssa.TypeAssert:
@@ -865,4 +878,50 @@ func returnSkipping(w *World, f *ssa.Function, call ssa.Instruction, idx int) st
 		}
 	}
 	return skips
+}
+
+// onRecognisedEdge: ret lies on the side of the test of classifier c (a bool: errors.Is/As, os.IsNotExist; or a
+// pointer: As…Error) on which the condition was recognised. When the classifier's result is not tested by an If of
+// its own (part of a compound condition) the question is not decided and the classification counts.
+func onRecognisedEdge(c *ssa.Call, ret *ssa.Return) bool {
+	refs := c.Referrers()
+	if refs == nil {
+		return true
+	}
+	decided := false
+	okEdge := false
+	var visit func(v ssa.Value, neg bool, d int)
+	visit = func(v ssa.Value, neg bool, d int) {
+		if d > 3 || v.Referrers() == nil {
+			return
+		}
+		for _, ref := range *v.Referrers() {
+			switch x := ref.(type) {
+			case *ssa.UnOp:
+				if x.Op == token.NOT {
+					visit(x, !neg, d+1)
+				}
+			case *ssa.BinOp:
+				if (x.Op == token.NEQ || x.Op == token.EQL) && (isNilConst(x.X) || isNilConst(x.Y)) {
+					// pointer result: non-nil = recognised
+					visit(x, neg != (x.Op == token.EQL), d+1)
+				}
+			case *ssa.If:
+				b := x.Block()
+				rec := b.Succs[0]
+				if neg {
+					rec = b.Succs[1]
+				}
+				decided = true
+				if edgeDominates(b, rec, ret.Block()) {
+					okEdge = true
+				}
+			}
+		}
+	}
+	visit(c, false, 0)
+	if !decided {
+		return true
+	}
+	return okEdge
 }
